@@ -78,7 +78,7 @@ def run_unit(A, unit, rep, tier):
                 rep.fail("C02.b", norm_key("C02.b", u.stack[-2][0] if len(u.stack) > 1 else lv.func.qualname, u.stmt),
                          f"the value merged by `{u.stmt}` is not the value returned by the loader on that path (got {show(d)[:80]})", [u.where() + ": " + u.stmt], g.label)
         if ok and not shared_mem:
-            loaders = [n.id for n in live(g) if n.kind == "leave" and n["fname"] in ("_load_from_resource", "_load_from_buffer") and recv_is_root_T(n) and len(n.stack) == 2]
+            loaders = [n.id for n in live(g) if n.kind == "leave" and n["fname"] in ("_load_from_resource", "_load_from_buffer") and recv_is_root_T(n) and own_child(n)]
             for l in loaders:
                 w = g.must_pass(l, [g.exit], [u.id for u in ups])
                 if w is not None:
@@ -105,7 +105,7 @@ def check_merge(A, rep):
         b, g = A.graph(cls, "_update", "root", "none")
         rep.context(g.label, True)
         lv = live(g)
-        top = [n for n in lv if len(n.stack) == 1]
+        top = [n for n in lv if own(n)]
         heads = [n for n in top if n.kind == "join" and n["what"] == "loop-head"]
         # establishing exits
         def _is_eq(c):
@@ -114,8 +114,8 @@ def check_merge(A, rep):
             return c.kind == "boolop" and c.args[0] == "and" and any(_is_eq(x) for x in c.args[1:])
 
         eq_arms = [n.id for n in top if n.kind == "arm" and n["arm"] is True and _is_eq(g.nodes[n["branch"]]["cond"])]
-        child_done = [n.id for n in lv if (n.kind == "leave" and n["fname"] == "_update" and len(n.stack) == 2 and n["recv"].args[1] == "nested")
-                      or (n.kind == "recurse" and n["func"].endswith("._update") and len(n.stack) == 1)]
+        child_done = [n.id for n in lv if (n.kind == "leave" and n["fname"] == "_update" and own_child(n) and n["recv"].args[1] == "nested")
+                      or (n.kind == "recurse" and n["func"].endswith("._update") and own(n))]
         stores = [n.id for n in top if n.kind == "data_mut" and n["op"] == "setitem" and any(x.kind == "call" and str(x.args[0]).endswith("._from_base") for x in n["value"].walk())]
         elem_heads = []
         for h in heads:
@@ -169,8 +169,8 @@ def check_merge(A, rep):
         else:
             rep.fail("C02.g", norm_key("C02.g", func.qualname), f"{func.qualname} can return without merging although the data is not None (e.g. an empty container is treated as 'no data')", g.witness(w), g.label)
         # C02.d None convention at child _update call sites
-        calls = [n for n in lv if (n.kind == "enter" and n["fname"] == "_update" and len(n.stack) == 2 and n["recv"].args[1] == "nested")
-                 or (n.kind == "recurse" and n["func"].endswith("._update") and len(n.stack) == 1)]
+        calls = [n for n in lv if (n.kind == "enter" and n["fname"] == "_update" and own_child(n) and n["recv"].args[1] == "nested")
+                 or (n.kind == "recurse" and n["func"].endswith("._update") and own(n))]
         silent = _has_silent_none_return(g)
         sites = {}
         for c in calls:
@@ -266,7 +266,7 @@ def _excludes_none(cond, arm, arg):
 def _has_silent_none_return(g):
     """The analysed _update returns normally without any mutation when its
     argument is None."""
-    top = [n for n in live(g) if len(n.stack) == 1]
+    top = [n for n in live(g) if own(n)]
     arms = [n for n in top if n.kind == "arm" and g.nodes[n["branch"]]["cond"].kind == "cmp" and g.nodes[n["branch"]]["cond"].args[0] in ("is", "is not")
             and g.nodes[n["branch"]]["cond"].args[2] == Val("const", None) and g.nodes[n["branch"]]["cond"].args[1].kind == "param"
             and (g.nodes[n["branch"]]["cond"].args[0] == "is") == n["arm"]]
